@@ -24,3 +24,22 @@ def transport(rep, wd, big):
               "describe TransportHandle's peer bookkeeping)" % (res["checked"], res["nviol"]), flush=True)
     rep.coverage["growth_transport_lifecycle"] = info
     return info
+
+
+def scheduler(rep, wd, big):
+    """Task state machine of MaintenanceScheduler: Scheduler.tla + Trace_Scheduler.tla (hosted by C20)."""
+    info = {}
+    r = vlib.tlc_must_hold("Scheduler", "MC_Scheduler.cfg", "hand-out rule, no double hand-out, counters grow", workers=4)
+    rep.add_tlc(r, "Maintenance scheduler")
+    x = vlib.tlc_must_fail("Scheduler", "MC_Scheduler_die.cfg", "as implemented: an executor that dies leaves its task running for ever", workers=2)
+    info["as_implemented_counterexample"] = x.violated
+    trace = os.path.join(wd, "scheduler.ndjson")
+    vlib.run_harness(["sched", "drive", "out=" + trace, "segments=%d" % (200 if big else 20), "ops=80"])
+    res, _ = vlib.validate_trace("Trace_Scheduler", "Trace_Scheduler.cfg", trace, os.path.join(wd, "scheduler_out.json"))
+    info["observations_checked"] = res["checked"]
+    info["drift"] = res["nviol"]
+    info["drift_samples"] = res["viol"][:5]
+    if res["nviol"]:
+        print("MODEL-DRIFT module=Scheduler observations=%d drift=%d (informational)" % (res["checked"], res["nviol"]), flush=True)
+    rep.coverage["growth_maintenance_scheduler"] = info
+    return info
